@@ -55,7 +55,7 @@ def instances(th):
     lhs = dict(nfsm=1, nv=48, conds="CondsOne", tests="NoTests", rhs="RhsLhs" if not th else "RhsRich", targets="TargetsRich",
                states="NoStates", inits="NoInits", maxlen=3, maxdepth=1, maxassign=2, mutant="")
     fsm = dict(nfsm=1, nv=144, conds="CondsOne", tests="NoTests", rhs="RhsOne", targets="TargetsFsm",
-               states="ThreeStates" if th else "TwoStates", inits="SomeInits", maxlen=9 if th else 8, maxdepth=2,
+               states="ThreeStates" if th else "TwoStates", inits="SomeInits", maxlen=9 if th else 7, maxdepth=2,
                maxassign=3, mutant="")
     mixed = dict(nfsm=1, nv=144, conds="CondsRich", tests="TestsRich", rhs="RhsRich", targets="TargetsRich",
                  states="ThreeStates", inits="SomeInits", maxlen=14 if th else 11, maxdepth=3, maxassign=5, mutant="")
@@ -152,6 +152,9 @@ def run(ctx):
     run_dump_stage(ctx, "ctrl", ctrl)
     run_dump_stage(ctx, "lhs", lhs)
     run_dump_stage(ctx, "fsm", fsm)
+    if not th:
+        # one statement longer, two assignments / transitions at most (e.g. `If(c): next = X` followed by `next = Y`)
+        run_dump_stage(ctx, "fsm-long", dict(fsm, maxlen=8, maxassign=2, inits="NoInitArg"))
     run_dump_stage(ctx, "regoff", regoff_instance(th))
     run_sim_stage(ctx, "mixed", mixed, 20000 if th else 2500)
     mut = dict(ctrl, maxlen=4, mutant="last_match", nv=16)
